@@ -33,7 +33,7 @@ ASSUMPTIONS = [
     'optimizers needing absent libraries (polychord, dypolychord) and plugin components (ace, BHMie) cannot be discovered here and are not judged',
     'CLI differential: taurex.taurex.main() run in-process with -i -o -S on files the harness wrote (pickle cross-sections, pickle CIA); spectrum compared with the same components built through the library, rtol 1e-9',
 ]
-REQUIRED = {'two-mixins': 0.012, 'zero-valued-key': 0.08, 'part:sections': 0.12, 'part:cli': 0.06, 'part:selectors': 0.002, 'part:retrieval': 0.06, 'part:cli-retrieval': 0.03, 'negative': 0.05}
+REQUIRED = {'two-mixins': 0.006, 'zero-valued-key': 0.05, 'part:sections': 0.12, 'part:cli': 0.06, 'part:selectors': 0.002, 'part:retrieval': 0.06, 'part:cli-retrieval': 0.03, 'negative': 0.05}
 # coverage-guided extra (thorough tier): pure-Python taurex modules on this property's path, instrumented by atheris
 FUZZ = {'include': ['taurex.parameter', 'taurex.util.util'], 'runs': 6000, 'workers': 4}
 
@@ -77,7 +77,7 @@ def _opt(strategy):
 
 @st.composite
 def _case(draw):
-    part = draw(st.sampled_from(['selectors', 'cli-retrieval', 'sections', 'cli', 'retrieval', 'cli-retrieval', 'sections', 'cli', 'retrieval', 'sections']))
+    part = draw(S.pick(['selectors', 'cli-retrieval', 'sections', 'cli', 'retrieval', 'cli-retrieval', 'sections', 'cli', 'retrieval', 'sections']))
     c = {'part': part}
     if part == 'selectors':
         c['case_variant'] = draw(S.ints(0, 3))
